@@ -3,7 +3,7 @@
 #  valid disparities in its filter_size window ... The result is independent of how the image is split into internal
 #  processing blocks"
 
-@contract("pandora.filter.median.MedianFilter.median_filter", props=["C10"])
+@contract("pandora.filter.median.MedianFilter.median_filter", props=["C10", "C13"])
 def _(self, data):
     types(self={"@attrs": {"_filter_size": "int"}}, data="f32[:,:]", result="f32[:,:]")
     # filter_size is odd (check_conf rejects even sizes, C05) and not larger than the image
@@ -54,7 +54,7 @@ def _(rng):
     return {"self": me, "data": data}
 
 
-@contract("pandora.filter.bilateral.BilateralFilter.filter_bilateral", props=["C10"])
+@contract("pandora.filter.bilateral.BilateralFilter.filter_bilateral", props=["C10", "C13"])
 def _(self, data, sigma_space, sigma_color):
     types(self="obj", data="f32[:,:]", sigma_space="float", sigma_color="float", result="f32[:,:]")
     # bilateral_kernel(windows, kernel, sigma_color, offset)[i, j] depends on windows[i, j, :, :] and the scalar arguments only
